@@ -203,7 +203,7 @@ func installHook() {
 // caseProg is one generated case: one or several units (top-level command lists). Units of the
 // "conc" driver run at the same time on contexts of their own inside one application.
 type caseProg struct {
-	Driver   string // term | termargs | shared | conc | args | script
+	Driver   string // term | termargs | shared | conc | args | script | ownroot
 	Units    [][]*Cmd
 	B        *builder
 	HookUS   int
@@ -255,11 +255,23 @@ func (p *caseProg) desc(kind string) map[string]any {
 // runOnCtx runs one top-level try through the terminal service on a child context of the
 // application's IO context and reports what the surrounding scope said afterwards.
 func runOnCtx(mapp *goatapp.MockupApp, term termservices.Terminal, line string, args []string, own bool, hk *hookCtl) surround {
+	return runOnCtxKind(mapp, term, line, args, own, false, hk)
+}
+
+// runOnCtxKind: ownRoot runs the line in an IO context whose scope is a root of its own
+// (scope.New) instead of a child of the application scope: its data scope does not reach the
+// application's, so nothing a pip command looks up there (such as the task manager) pre-exists.
+func runOnCtxKind(mapp *goatapp.MockupApp, term termservices.Terminal, line string, args []string, own, ownRoot bool, hk *hookCtl) surround {
 	params := gio.ChildIOContextParams{}
 	if own {
 		params.Scope = scope.ChildParams{ContextScope: contextscope.New()}
 	}
-	ctx := gio.NewChildIOContext(mapp.IOContext(), params)
+	var ctx app.IOContext
+	if ownRoot {
+		ctx = gio.NewIOContext(scope.New(scope.Params{Name: "c16ownroot"}), mapp.IOContext().IO())
+	} else {
+		ctx = gio.NewChildIOContext(mapp.IOContext(), params)
+	}
 	if hk != nil {
 		hk.isDone.Store(func() bool { return ctx.Scope().IsDone() })
 	}
@@ -372,7 +384,7 @@ func execute(p *caseProg, x *execRun, hk *hookCtl) (out caseOutcome) {
 					if len(p.Units) == 1 {
 						h = hk
 					}
-					o.srs[i] = runOnCtx(mapp, term, p.texts[i], args, own, h)
+					o.srs[i] = runOnCtxKind(mapp, term, p.texts[i], args, own, p.Driver == "ownroot", h)
 				}(i)
 			}
 			close(start)
